@@ -80,7 +80,7 @@ class C13(vlib.Check):
         for _ in range(n):
             o = {"num_conf": rng.choice([3, 5, 8, 12]), "first": rng.choice([-1, -1, 1, 2, 4]), "pool_multiplier": rng.choice([1, 1, 2]),
                  "rmsd_cutoff": rng.choice([-1.0, 0.2, 0.5, 0.5, 1.0]), "max_energy_diff": rng.choice([None, None, 0.5, 5.0]),
-                 "forcefield": rng.choice(["uff", "uff", "mmff94", "mmff94s"]), "seed": rng.choice([1, 7, 42])}
+                 "forcefield": rng.choice(["uff", "uff", "mmff94", "mmff94s"]), "seed": rng.choice([0, 0, 1, 7, 42, 2 ** 31 - 1])}
             self.count("ff:" + o["forcefield"])
             yield {"t": "gen", "smiles": rng.choice(SMILES), "opts": o}
         for k in range(2 if self.tier == "quick" else 12):
@@ -132,6 +132,19 @@ class C13(vlib.Check):
         if case["t"] != "gen":
             return {"ok": "see prop"}
         return answers[0]
+
+    def compare(self, case, a_impl, a_model):
+        if case["t"] == "gen" and "ok" in a_impl:
+            # RDKit returns identical conformers for some seeds (0, 2^31-1): exact energy ties, whose relative order is
+            # np.argsort's business, not the property's.  The contract itself is still evaluated on them by prop().
+            try:
+                _, _, _, rec = self._gen(case)
+                if len(set(rec["energies"])) != len(rec["energies"]):
+                    self.count("energy-ties-skipped")
+                    return None
+            except Exception:  # noqa: BLE001
+                pass
+        return super().compare(case, a_impl, a_model)
 
     # ------------------------------------------------------------------ property
     def prop(self, case):
